@@ -44,7 +44,6 @@ SplitOn(s, c, cur, acc) == IF s = <<>> THEN Append(acc, cur)
                            ELSE SplitOn(Tail(s), c, Append(cur, Head(s)), acc)
 
 ErrV(msg) == V("error", 0, <<msg>>, <<>>)
-IntOf(v) == IF v.k = "int" THEN v.n ELSE 0
 
 \* ---- numbers with a fractional part: a "fix" value carries thousandths (n = 1250 is 1.25)
 Fix(n) == V("fix", n, <<>>, <<>>)
@@ -72,6 +71,9 @@ ParseInt(s) == IF s = <<>> THEN 0
                ELSE IF Head(s) = "-" THEN (IF Tail(s) = <<>> \/ ParseNat(Tail(s), 0) < 0 THEN 0 ELSE 0 - ParseNat(Tail(s), 0))
                ELSE IF ParseNat(s, 0) < 0 THEN 0 ELSE ParseNat(s, 0)
 ArgInt(a) == CASE a.k = "int" -> a.n [] a.k = "str" -> ParseInt(a.s) [] a.k = "fix" -> (IF a.n < 0 THEN 0 - (AbsI(a.n) \div 1000) ELSE a.n \div 1000) [] OTHER -> 0
+\* the integer a value stands for where a filter wants one: a number written in a string counts, in base ten whatever
+\* zeros it starts with ("010" is ten)
+IntOf(v) == ArgInt(v)
 \* floatformat: no argument = one place, trimmed; n > 0 = exactly n places; n <= 0 or a non-numeric argument = |n| places, trimmed
 \* (trimmed: a whole number is given as an integer)
 FloatFormat(v, a) ==
